@@ -183,6 +183,11 @@ class Output(BaseOutput):
             for var, conf in self.instance_variables.items():
                 v = nc.createVariable(var, conf["encoding"]["datatype"], instance_dim)
                 for att, value in conf["attributes"].items():
+                    # Replace string "reference_time" with actual reference time
+                    if isinstance(value, str) and "reference_time" in value:
+                        value = value.replace(
+                            "reference_time", str(self.timer.reference_time)
+                        )
                     setattr(v, att, value)
 
         if self.particle_variables is not None:
@@ -239,17 +244,17 @@ class Output(BaseOutput):
             # (after a warm start the state does not begin with pid = 0)
             has_value = state.pid[state.alive]
             for var in self.instance_variables:
-                # values = getattr(state, var)
-                self.nc.variables[var][self.local_record_count, has_value] = getattr(
-                    state, var
-                )[state.alive]
+                values = self.encode(state, var)
+                self.nc.variables[var][self.local_record_count, has_value] = values[
+                    state.alive
+                ]
         elif self.layout == "sparse":
             count = len(state)  # Present number of particles
             start = self.local_instance_count
             end = start + count
             self.nc.variables["particle_count"][self.local_record_count] = count
             for var in self.instance_variables:
-                self.nc.variables[var][start:end] = getattr(state, var)
+                self.nc.variables[var][start:end] = self.encode(state, var)
 
         # Compute and save lon, lat if requested
         if self.lonlat:
@@ -296,12 +301,28 @@ class Output(BaseOutput):
         npart = int(state.npid)  # Total number of particles so far
         self.nc.num_particles = npart  # Needed for warm start
         for var in self.particle_variables:
-            if state.dtypes[var] == np.dtype("datetime64[s]"):
-                unit = self.time_unit
-                delta = state[var].astype("M8[s]") - self.timer.reference_time
-                self.nc.variables[var][:npart] = delta[:npart] / np.timedelta64(1, unit)
-            else:
-                self.nc.variables[var][:npart] = state[var][:npart]
+            self.nc.variables[var][:npart] = self.encode(state, var)[:npart]
+
+    def encode(self, state: State, var: str) -> np.ndarray:
+        """The values of a state variable as they are stored on file
+
+        A time variable is stored as a number following the units attribute
+        of its netCDF variable, "<unit> since <time>" (default: seconds since
+        the reference time)
+        """
+        values = state[var]
+        if state.dtypes.get(var) != np.dtype("datetime64[s]"):
+            return values
+        units = getattr(self.nc.variables[var], "units", "")
+        unit_name, since, reference = units.partition(" since ")
+        if since:
+            unit = dict(seconds="s", minutes="m", hours="h", days="D")[unit_name.strip()]
+            reference_time = np.datetime64(reference.strip(), "s")
+        else:
+            unit = self.time_unit
+            reference_time = self.timer.reference_time
+        delta = values.astype("M8[s]") - reference_time
+        return delta / np.timedelta64(1, unit)
 
     def close(self) -> None:
         if self.nc.isopen():
